@@ -117,6 +117,7 @@ def run_e1(prop, tier, deadline):
         "silent_suffix_runs": sum_counter(results, "silent_suffix_runs"),
         "merge_differential_steps": sum_counter(results, "merge_differential_steps"),
         "hidden_state_variants": sum_counter(results, "hidden_state_variants"),
+        "constructor_built_states": sum_counter(results, "constructor_built_states"),
         "configurations": per_cfg,
         "explanation": "Stateful BFS over the reachable states of the real graph objects (values, copied per transition) in lock-step with a std::map reference model; "
                        "every transition's outcome and every public observer in every new state compared with the model (%s). "
@@ -689,6 +690,14 @@ def run_c18(tier, deadline):
         for c in ["dir_int", "und_string", "uweighted", "dmulti"]:
             add(c, "g++", "fine", 2, 2, True, dl=1500)   # two preemptions; bounded by a deadline (reported as a cap if hit)
     run_jobs(jobs, built, workdir)
+    # a deadlock of the code under test ends the worker with exit code 98
+    for j in jobs:
+        if j.returncode == 98:
+            tuples = [l for l in j.output.splitlines() if l.startswith("TUPLE ")]
+            outcome.add_violation("C18:deadlock", "threads that only call const operations on one shared graph deadlocked (every unfinished thread waits for a lock held by another), job `%s`, while exploring %s" % (
+                j.label, tuples[-1] if tuples else "?"), {"build": j.build.name, "args": j.args, "env": j.env})
+            j.status = "ok-race"
+            j.returncode = 0
     # a ThreadSanitizer report ends the worker with exit code 66
     for j in jobs:
         if j.returncode == 66:
